@@ -75,7 +75,8 @@ type serverConn struct {
 	// frames from their own goroutines, so closing writer to stop the write
 	// loop meant one of them could panic the process with a send on a closed
 	// channel.
-	writeStop chan struct{}
+	writeStop     chan struct{}
+	writeStopOnce sync.Once
 
 	// handlerDone carries a stream back to the stream loop once its handler has
 	// returned. Handlers run on their own goroutines so that a slow request
@@ -201,6 +202,11 @@ func (sc *serverConn) Serve() error {
 			_ = sc.c.Close()
 		}()
 
+		// Once nobody takes frames off the queue any more, nobody may wait for
+		// room in it either: a write error with the queue full left the read
+		// loop and the stream loop inside write for good.
+		defer sc.stopWrites()
+
 		sc.writeLoop()
 	}()
 
@@ -214,7 +220,7 @@ func (sc *serverConn) Serve() error {
 		// Tell the write loop to drain what is queued and stop. The channel
 		// itself is never closed: anything still holding a frame would panic
 		// trying to hand it over.
-		close(sc.writeStop)
+		sc.stopWrites()
 
 		// The write loop closes the connection once it has drained, which is
 		// what ends the read loop and lets Serve return. A peer that has stopped
@@ -1830,6 +1836,12 @@ func (sc *serverConn) sendPingAndSchedule() {
 	sc.writePing()
 
 	sc.pingTimer.Reset(sc.pingInterval)
+}
+
+// stopWrites tells everything that queues frames that the connection is on its
+// way out. Both the end of the stream loop and the end of the write loop say so.
+func (sc *serverConn) stopWrites() {
+	sc.writeStopOnce.Do(func() { close(sc.writeStop) })
 }
 
 // write queues a frame for the peer. It drops the frame instead of blocking
